@@ -118,6 +118,12 @@ type env struct {
 	// answered and the implementation may keep or drop them; if one resolves, its result arrives on the
 	// current primary's stream under an id that stream also uses (known finding KF-C06-1).
 	shadow map[uint64]*opRec
+	// noAlign: the responses being processed are a re-presentation by the harness itself (see postpone): they
+	// say nothing about how the server pairs responses with operations
+	noAlign bool
+	// primarySess: in the sequential families, the session that is the primary (the latest announcer of the highest id)
+	primarySess  int
+	primaryKnown bool
 	// postpone: when set, successes whose references are not acknowledged yet are collected here instead of
 	// being judged (results for them may be waiting on another session's stream)
 	postpone *[]*spb.AFTResult
@@ -265,6 +271,7 @@ func (e *env) openSession(elec [2]uint64, fib bool) *session {
 	}
 	if less128(e.maxElec, elec) || e.maxElec == elec {
 		e.maxElec = elec
+		e.primarySess, e.primaryKnown = s.idx, true // (the latest announcer of the highest id; a tie moves the role)
 	}
 	got := rs[1].GetElectionId()
 	if got == nil || got.High != e.maxElec[0] || got.Low != e.maxElec[1] {
@@ -337,7 +344,7 @@ func (e *env) processResults(s *session, rs []*spb.ModifyResponse) {
 			nOpResp++
 		}
 	}
-	if len(s.opOrder) > 0 && !s.alignLost && nOpResp != len(s.opOrder)-s.opResp {
+	if len(s.opOrder) > 0 && !s.alignLost && !e.noAlign && nOpResp != len(s.opOrder)-s.opResp {
 		s.alignLost = true
 		if nOpResp > 0 {
 			e.probe("responses and operations do not pair up one to one (merged, split or cut short)")
@@ -357,7 +364,7 @@ func (e *env) processResults(s *session, rs []*spb.ModifyResponse) {
 		// was installed): a FAILED verdict is judged against every model state the
 		// response passes through, the others strictly in order.
 		e.curTrig = -1
-		if len(s.opOrder) > 0 && !s.alignLost {
+		if len(s.opOrder) > 0 && !s.alignLost && !e.noAlign {
 			if s.opResp < len(s.opOrder) {
 				fits := len(r.GetResult()) == 0
 				for _, res := range r.GetResult() {
@@ -849,6 +856,9 @@ func (e *env) discarded(rec *opRec, implHolds map[uint64]bool) bool {
 // sessionGone: the session that sent rec has ended or lost the primary role.
 func (e *env) sessionGone(rec *opRec) bool {
 	rs := e.sess[rec.sess]
+	if e.primaryKnown && e.sc.Family == "g1" {
+		return rs.dead || rs.closed || rec.sess != e.primarySess
+	}
 	return rs.dead || rs.closed || rs.elec != e.maxElec || e.lostRole[rec.sess]
 }
 
@@ -916,7 +926,9 @@ func (e *env) afterQuiescenceChecks(s *session) {
 		if e.sess[rec.sess].dead && rec.state == opSent {
 			continue // stream ended: the operation may legitimately stay unanswered
 		}
-		if rec.state == opSent && !implHolds[id] && e.sessionGone(rec) {
+		if rec.state == opSent && !implHolds[id] && e.sessionGone(rec) && rec.op.GetOp() != spb.AFTOperation_DELETE && rec.op.GetNextHop() == nil {
+			// (only an operation that CAN be held: a DELETE or a next-hop refers to nothing, no server ever holds
+			// one, so "held for a while, then discarded at the hand-over" cannot explain a missing answer)
 			// its session has lost the primary role: C06 owes it no answer, and a server that held it for a
 			// while may have discarded it at the hand-over (if it was installed nevertheless, the comparison
 			// of the installed entries says so)
